@@ -127,7 +127,12 @@ func paramIndex(fn *ssa.Function, v ssa.Value) int {
 }
 
 // S3Ownership checks who may write the fields of GradContext and CPUTensor, and who may read gctx.
-func S3Ownership(p *core.Program, a *spec.Anchors, r *core.Report) {
+func S3Ownership(p *core.Program, a *spec.Anchors, r *core.Report) { s3(p, a, r, true, true) }
+
+// S3Reads checks only the read inventory of the gradient context (forward values cannot depend on tracking).
+func S3Reads(p *core.Program, a *spec.Anchors, r *core.Report) { s3(p, a, r, false, true) }
+
+func s3(p *core.Program, a *spec.Anchors, r *core.Report, writes, reads bool) {
 	fi := computeFresh(p)
 	g := p.VTA()
 	pub := p.Func(core.PkgTensor, "BackPropagate")
@@ -155,6 +160,9 @@ func S3Ownership(p *core.Program, a *spec.Anchors, r *core.Report) {
 			for _, in := range b.Instrs {
 				switch x := in.(type) {
 				case *ssa.Store:
+					if !writes {
+						continue
+					}
 					fr, ok := asFieldAddr(x.Addr)
 					if !ok {
 						continue
@@ -192,7 +200,7 @@ func S3Ownership(p *core.Program, a *spec.Anchors, r *core.Report) {
 							"the operand of an operation changes shape/elements/context")
 					}
 				case *ssa.UnOp:
-					if x.Op != token.MUL {
+					if x.Op != token.MUL || !reads {
 						continue
 					}
 					fr, ok := asFieldAddr(x.X)
@@ -209,6 +217,11 @@ func S3Ownership(p *core.Program, a *spec.Anchors, r *core.Report) {
 				}
 			}
 		}
+	}
+	if !writes {
+		r.Count("S3.gctx_reads", nReads)
+		r.Min("S3.gctx_reads", 2)
+		return
 	}
 	// address-of field passed on (e.g. &t.data handed to a filler): treat as a write of that field
 	for _, fn := range p.ModuleFunctions(core.PkgCPU) {
